@@ -32,7 +32,7 @@ META = {
     "assumptions": ["json.loads(json.dumps m) = m", "AES-CTR: decrypt(k, encrypt(k, d)) = d", "normalize idempotent"],
 }
 
-IMPORTS = ["Lib.Hex", "Model.Dirnode"]
+IMPORTS = ["Lib.Hex", "Model.Dirnode", "Model.DirnodeLit"]
 PREAMBLE = """
 Fixpoint outs_eqb (a b : list outcome) : bool :=
   match a, b with
@@ -291,7 +291,7 @@ def one_history(ctx, i, terms, info):
                         res = D.outcome(defer_call(lambda: dn.set_node(namex, node, md, overwrite=ov_value(ov))))
                 want = ref.add(d, [(D.nfc(namex), D.node_obs(node), md)], ov, now)
                 coq_ops.append("(OAdd %d [(%s, %s, %s)] %s, JNum %s)" % (
-                    d, T.bytes_(namex.encode("utf-8")), D.coq_cfc("cls", False, p[0], p[1]),
+                    d, D.B(namex.encode("utf-8")), D.coq_cfc("cls", False, p[0], p[1]),
                     T.opt(D.jobj(md) if md is not None else None), coq_ov(ov), T.Z(now)))
             elif kind in ("set_children", "set_nodes"):
                 ents = []
@@ -317,7 +317,7 @@ def one_history(ctx, i, terms, info):
                     res = D.outcome(defer_call(lambda: dn.set_nodes(arg, overwrite=ov_value(ov))))
                 want = ref.add(d, [(D.nfc(e[0]), D.node_obs(n), e[2]) for e, n in zip(ents, nodes)], ov, now)
                 coq_ops.append("(OAdd %d [%s] %s, JNum %s)" % (
-                    d, "; ".join("(%s, %s, %s)" % (T.bytes_(e[0].encode("utf-8")), D.coq_cfc("cls", False, e[1][0], e[1][1]),
+                    d, "; ".join("(%s, %s, %s)" % (D.B(e[0].encode("utf-8")), D.coq_cfc("cls", False, e[1][0], e[1][1]),
                                                    T.opt(D.jobj(e[2]) if e[2] is not None else None)) for e in ents),
                     coq_ov(ov), T.Z(now)))
             elif kind == "delete":
@@ -326,14 +326,14 @@ def one_history(ctx, i, terms, info):
                 desc = [kind, d, namex, me, mbd, mbf]
                 res = D.outcome(defer_call(lambda: dn.delete(namex, must_exist=me, must_be_directory=mbd, must_be_file=mbf)))
                 want = ref.delete(d, D.nfc(namex), me, mbd, mbf)
-                coq_ops.append("(ODelete %d %s %s %s %s, JNum %s)" % (d, T.bytes_(namex.encode("utf-8")), T.boolean(me), T.boolean(mbd), T.boolean(mbf), T.Z(now)))
+                coq_ops.append("(ODelete %d %s %s %s %s, JNum %s)" % (d, D.B(namex.encode("utf-8")), T.boolean(me), T.boolean(mbd), T.boolean(mbf), T.Z(now)))
             elif kind == "set_md":
                 namex = pick_name()
                 md = D.gen_metadata(r, ascii_only=True)
                 desc = [kind, d, namex, md]
                 res = D.outcome(defer_call(lambda: dn.set_metadata_for(namex, md)))
                 want = ref.setmd(d, D.nfc(namex), md, now)
-                coq_ops.append("(OSetMd %d %s %s, JNum %s)" % (d, T.bytes_(namex.encode("utf-8")), D.jobj(md), T.Z(now)))
+                coq_ops.append("(OSetMd %d %s %s, JNum %s)" % (d, D.B(namex.encode("utf-8")), D.jobj(md), T.Z(now)))
             else:
                 namex = pick_name()
                 dst = r.choice([d, d, (d + 1) % ndirs, (d + 2) % ndirs])
@@ -341,8 +341,8 @@ def one_history(ctx, i, terms, info):
                 desc = [kind, d, namex, dst, newx, ov]
                 res = D.outcome(defer_call(lambda: dn.move_child_to(namex, dirs[dst], newx, overwrite=ov_value(ov))))
                 want = ref.move(d, D.nfc(namex), dst, D.nfc(newx) if newx is not None else D.nfc(namex), ov, now)
-                coq_ops.append("(OMove %d %s %d %s %s, JNum %s)" % (d, T.bytes_(namex.encode("utf-8")), dst,
-                                                                   T.opt(T.bytes_(newx.encode("utf-8")) if newx is not None else None),
+                coq_ops.append("(OMove %d %s %d %s %s, JNum %s)" % (d, D.B(namex.encode("utf-8")), dst,
+                                                                   T.opt(D.B(newx.encode("utf-8")) if newx is not None else None),
                                                                    coq_ov(ov), T.Z(now)))
             ops_desc.append(desc)
             ctx.count("op:" + kind)
@@ -366,13 +366,13 @@ def one_history(ctx, i, terms, info):
     # ---- the map model, in Coq
     if (nops <= 10 and i < ctx.n(60, 900)) or i % 9 == 0:
         final = [snapshot(x) for x in dirs]
-        norm = "(normalize_tbl [%s])" % "; ".join("(%s, %s)" % (T.bytes_(n.encode("utf-8")), T.bytes_(D.nfc(n).encode("utf-8")))
+        norm = "(normalize_tbl [%s])" % "; ".join("(%s, %s)" % (D.B(n.encode("utf-8")), D.B(D.nfc(n).encode("utf-8")))
                                                  for n in NAMES if D.nfc(n) != n)
         init = "[%s]" % "; ".join(
-            "sm_of_list [%s]" % "; ".join("(%s, (%s, %s))" % (T.bytes_(name.encode("utf-8")), D.coq_cfc("cls", False, p[0], p[1]), D.jobj(md))
+            "sm_of_list [%s]" % "; ".join("(%s, (%s, %s))" % (D.B(name.encode("utf-8")), D.coq_cfc("cls", False, p[0], p[1]), D.jobj(md))
                                           for name, p, md in spec) for spec in init_spec)
         exp_dirs = "[%s]" % "; ".join(
-            "[%s]" % "; ".join("(%s, (%s, %s))" % (T.bytes_(name.encode("utf-8")), D.coq_node(fin[name][0]), D.jobj(fin[name][1], sort=True))
+            "[%s]" % "; ".join("(%s, (%s, %s))" % (D.B(name.encode("utf-8")), D.coq_node(fin[name][0]), D.jobj(fin[name][1], sort=True))
                                for name in sorted(fin, key=lambda s: s.encode("utf-8"))) for fin in final)
         t = ("let cls := %s in let r := a_run cls %s %s [%s] in outs_eqb (fst r) [%s] && dirs_eqb (snd r) %s"
              % (tbl.coq(used), norm, init, "; ".join(coq_ops), "; ".join(coq_outcome(o) for o in outcomes), exp_dirs))
